@@ -6,6 +6,17 @@ NOTES = ('All checks are ./check <id>; each rebuilds a source-only overlay from 
 NOT_CLAIMED = {}
 
 PROPS = {
+    'C10': {
+        'modules': ['contracts.C10_uri'],
+        'level': 'proof',
+        'level_text': 'Finite tables by complete enumeration (all 256 encoder entries against the RFC 3986 sets, all 65536 two-byte keys of the hex table), both '
+                      'token joiners equal one token-level reference decoder for arbitrary byte tokens (1..9 tokens) and agree with each other, decode() for every '
+                      'string with <= 8 percent signs (all lengths/contents, unquote_plus False/True/default) incl. the short/long switch, the encoder closure fast '
+                      'paths and table path, parse_host for the RFC 3986 authority forms, unquote_string.',
+        'level_note': 'decode with > 8 percent signs / > 9 tokens, decode(encode(s)) == s, idempotence of the check-escaped encoders and the output alphabet of the '
+                      'slow path are NOT mechanised (induction): covered only by the labelled bounded stand-in (all strings <= 4 over 14 symbols + random KB-size '
+                      'strings). UTF-8 codecs are uninterpreted; cyutil/uri.pyx is out of reach.',
+    },
     'C14': {
         'modules': ['contracts.C14_readers'],
         'level': 'proof',
